@@ -169,6 +169,17 @@ theorem invert_spec_prime (p x : Nat) (d : Div) (tab : List Nat)
       absurd (Nat.le_of_dvd hx0 hdvd) (by omega))).symm
   exact invert_spec p x d tab hd ht hodd (by omega) hp28 hx0 hxp hcop
 
+/-- `p = 2`: `Inverter::new(2)` is the dummy all-zero table and `invert` returns `x % 2` for every
+`x` (also `x = 0`: the `assert!(x != 0)` comes after the `p == 2` return), whatever table is
+passed; for odd `x` that is the inverse. -/
+theorem invert_two (d : Div) (tab : List Nat) (x : Nat) (hd : Dividers.new 2 = some d) :
+    Inverter.new 2 = some (List.replicate 8 0) ∧ Inverter.invert tab d x = some (x % 2) ∧
+    (x % 2 = 1 → x * (x % 2) % 2 = 1) := by
+  have hp : d.p = 2 := (new_ok 2 d hd).1
+  refine ⟨by decide, ?_, fun h => by rw [h]; omega⟩
+  unfold Inverter.invert Inverter.invertFuel
+  rw [if_pos hp]
+
 /-- both constructors and `invert` together: nothing is assumed beyond the domain. -/
 theorem invert_total (p x : Nat) (hodd : p % 2 = 1) (hp3 : 3 ≤ p) (hp28 : p < 2 ^ 28)
     (hx0 : 0 < x) (hxp : x < p) (hcop : Nat.Coprime x p) :
@@ -289,13 +300,17 @@ example : invMod64 3 18446744073709551557 = some (some 6148914691236517186) ∧
 
 /-! ### integer roots, perfect powers -/
 
-/-- `nthRoot` — the specification function that stands for `num_integer`'s `nth_root`/`sqrt`
-(hence for `arith::isqrt`) — is the floor of the k-th root. -/
+/-- A fact about the *specification function* `nthRoot` (a bisection defined in
+Ymq/Model/Arith.lean), not about code: it is the floor of the k-th root. The library routines it
+stands for (`num_integer::Roots::{nth_root, sqrt}` for `u64`, the `bnum` instance for `Uint`, hence
+`arith::isqrt`) are NOT modelled; they are tied to `nthRoot` by the K/O runs only. -/
 theorem nth_root_spec (n k : Nat) (hk : 0 < k) :
     (nthRoot n k) ^ k ≤ n ∧ n < (nthRoot n k + 1) ^ k :=
   nthRoot_spec n k hk
 
-/-- `arith::isqrt` (as modelled by the floor-root specification function). -/
+/-- Same remark: `isqrt := nthRoot · 2` is the specification function that stands for
+`arith::isqrt = num_integer::sqrt`; this is a fact about that function, the library code is tied
+to it by K/O only. (`squfof::isqrt`, which lives in the repository, is modelled: next theorem.) -/
 theorem isqrt_spec (n : Nat) : isqrt n * isqrt n ≤ n ∧ n < (isqrt n + 1) * (isqrt n + 1) :=
   isqrt_spec' n
 
@@ -308,7 +323,8 @@ theorem squfof_isqrt_spec (fuel n seed r : Nat) (h : squfofIsqrt fuel n seed = s
 
 example : squfofIsqrt 10 18446744073709551615 4294967296 = some 4294967295 := by decide +kernel
 
-/-- `perfect_power` over the floor-root specification function: `Some((r, k))` means
+/-- `perfect_power` *relative to the floor-root specification function* `nthRoot` (the control flow
+of `perfect_power` is modelled, the library `nth_root` it calls is not): `Some((r, k))` means
 `r^k = n` with `k ≥ 2`; `None` means that `n` is not an e-th power for any of the exponents
 2, 3, 5, 7, 11, 13, 17, 19 the code tries. -/
 theorem perfect_power_spec (n : Nat) (res : Option (Nat × Nat)) (h : perfectPower n = some res) :
@@ -320,8 +336,21 @@ theorem perfect_power_spec (n : Nat) (res : Option (Nat × Nat)) (h : perfectPow
   | some rk => exact this
   | none => exact this
 
-/-- `perfect_power` terminates (recursion depth ≤ n) and its exponent product never overflows
-`u32`, for every argument of the widest type used (`n < 2^1024`). After the repair 78b984c this
+/-- What the recursion on the root guarantees: for `n ≥ 2` the returned root `r` is not itself an
+e-th power for any of the tried exponents e ∈ {2, 3, 5, 7, 11, 13, 17, 19} (so `perfect_power(r)`
+would answer `None`, and `k` collects every tried prime exponent that can be split off, e.g.
+`6669042837601 ↦ (1607, 4)`, not `(2582449, 2)`). Nothing is claimed about exponents with all
+prime factors above 19 (`2^46 ↦ (2^23, 2)`). For `n ∈ {0, 1}` the answer is `(n, 2)`.
+Relative to the floor-root specification function `nthRoot`, like `perfect_power_spec`. -/
+theorem perfect_power_root_primitive (n r k : Nat) (h : perfectPower n = some (some (r, k)))
+    (hn : 2 ≤ n) : ∀ e ∈ ppExps, ¬ ∃ s, s ^ e = r :=
+  ppFuel_prim _ n r k h hn
+
+example : perfectPower (2 ^ 46) = some (some (2 ^ 23, 2)) ∧ perfectPower (2 ^ 23) = some none ∧
+    perfectPower 0 = some (some (0, 2)) := by decide +kernel
+
+/-- Relative to `nthRoot` again: `perfect_power` terminates (recursion depth ≤ n) and its exponent
+product never overflows `u32`, for every argument of the widest type used (`n < 2^1024`). After the repair 78b984c this
 includes `n = 0` and `n = 1` (before it the recursion was unbounded there). -/
 theorem perfect_power_no_panic (n : Nat) (hn : n < 2 ^ 1024) : ∃ res, perfectPower n = some res :=
   ppFuel_total (n + 1) n (by omega) hn
